@@ -262,7 +262,7 @@ let new_inst (i : int) (std : bool) : string =
   | Some (inst, st, syn) -> Hashtbl.replace insts i inst; w_st := st; w_syn := syn; "ok"
   | None -> "(panic)"
 
-let efuel = default_efuel
+let efuel_ref = ref default_efuel
 
 let show_tokens (r : (token * pos) list res) : string =
   let show_prim p = match p with
@@ -295,11 +295,12 @@ let handle (line : string) : string =
       (match String.split_on_char ',' h with
        | [s; m; e] -> show_real (f32_of_decimal (s = "1") (z_of_int (int_of_string m)) (z_of_int (int_of_string e)))
        | _ -> failwith "bad LIT")
-  | ["RESET"] -> reset (); "ok"
+  | ["RESET"] -> reset (); efuel_ref := default_efuel; "ok"
+  | ["FUEL"; n] -> efuel_ref := nat_of_int (int_of_string n); "ok"
   | ["NEW"; i; kind] -> new_inst (int_of_string i) (kind = "std")
   | ["EVAL"; i; h] ->
       let i = int_of_string i in
-      let ((r, c), _) = eval_text !w_fs cwd efuel (str_of_string (hex_decode h)) (ctx_of i) in
+      let ((r, c), _) = eval_text !w_fs cwd !efuel_ref (str_of_string (hex_decode h)) (ctx_of i) in
       commit i c; let o = show_outcome r in o ^ take_side ()
   | ["DEVAL"; i; h] ->
       (* one expression through the depth-instrumented evaluator *)
@@ -308,7 +309,7 @@ let handle (line : string) : string =
       let text = str_of_string (hex_decode h) in
       (match parse_next c { lrest = text; lpos = (Npos XH, Npos XH); pcur = None; ploc = None } with
        | (Ok (Some (SExpr e), _), c1) ->
-           let ((r, st), d) = deval_expr efuel e c1.c_inst.i_env c1.c_st (O, O) in
+           let ((r, st), d) = deval_expr !efuel_ref e c1.c_inst.i_env c1.c_st (O, O) in
            commit i { c1 with c_st = st };
            let r' = (match r with Ok v -> Ok (Some v) | Err (k, l) -> Err (k, loc_or l (eloc e)) | Panic x -> Panic x | OutOfFuel -> OutOfFuel) in
            let o = show_outcome r' in
@@ -316,12 +317,12 @@ let handle (line : string) : string =
        | (other, c1) -> commit i c1; "(not-an-expression)")
   | ["PROG"; i; h] ->
       let i = int_of_string i in
-      let ((_, c), trace) = eval_text !w_fs cwd efuel (str_of_string (hex_decode h)) (ctx_of i) in
+      let ((_, c), trace) = eval_text !w_fs cwd !efuel_ref (str_of_string (hex_decode h)) (ctx_of i) in
       commit i c;
       let o = String.concat ";" (List.map show_outcome trace) in o ^ take_side ()
   | ["EVALD"; i; h] ->
       let i = int_of_string i in
-      let ((r, c), _) = eval_text !w_fs cwd efuel (str_of_string (hex_decode h)) (ctx_of i) in
+      let ((r, c), _) = eval_text !w_fs cwd !efuel_ref (str_of_string (hex_decode h)) (ctx_of i) in
       commit i c;
       (match r with
        | Ok (Some v) -> (match display (nat_of_int 10000) !w_st v with
@@ -351,7 +352,7 @@ let handle (line : string) : string =
       w_fs := (key, entry) :: !w_fs; "ok"
   | ["RUNFILE"; i; dir; file] ->
       let i = int_of_string i in
-      let ((r, c), trace) = eval_file !w_fs cwd efuel (str_of_string (hex_decode dir))
+      let ((r, c), trace) = eval_file !w_fs cwd !efuel_ref (str_of_string (hex_decode dir))
           [str_of_string (hex_decode file)] (ctx_of i) in
       commit i c;
       String.concat ";" (List.map show_outcome trace) ^ "|" ^ show_outcome r ^ take_side ()
